@@ -21,6 +21,9 @@ pub enum GSpec {
     /// from_poly over the current output space, identity on the polytope
     FromPoly(Vec<(Vec<f64>, f64)>, bool),
     User(TSpec),
+    /// the same tree over an arena whose root was replaced with `Tree::add_root` (root not at node 0, a former tree
+    /// left behind unreachable); not part of the operation alphabets, used by fixed families only
+    Rerooted(TSpec),
     /// the operand after its own infeasible_elimination (it carries cached feasibility states)
     Eliminated(Box<GSpec>),
 }
@@ -46,7 +49,7 @@ impl GSpec {
             GSpec::Argmax => d >= 2,
             GSpec::ClassChar(c) => d >= 2 && *c < d,
             GSpec::FromPoly(rows, _) => rows[0].0.len() == d,
-            GSpec::User(t) => t.aff().indim == d,
+            GSpec::User(t) | GSpec::Rerooted(t) => t.aff().indim == d,
             GSpec::Eliminated(g) => g.fits(d),
         }
     }
@@ -54,7 +57,7 @@ impl GSpec {
         match self {
             GSpec::Argmax | GSpec::ClassChar(_) => 1,
             GSpec::Eliminated(g) => g.out_dim(d),
-            GSpec::User(t) => t.out_dim().unwrap_or(d),
+            GSpec::User(t) | GSpec::Rerooted(t) => t.out_dim().unwrap_or(d),
             _ => d,
         }
     }
@@ -73,6 +76,7 @@ impl GSpec {
             }
             // storage layout by size: depth-first, breadth-first, re-used indices, column-major matrices
             GSpec::User(t) => t.build_layout::<2>((t.n_nodes() % 5) as u8),
+            GSpec::Rerooted(t) => t.build_rerooted::<2>((t.n_nodes() % 2) as u8),
             GSpec::Eliminated(g) => {
                 let mut t = g.build(d);
                 t.infeasible_elimination();
@@ -83,6 +87,7 @@ impl GSpec {
     pub fn to_json(&self) -> Value {
         match self {
             GSpec::User(t) => json!({"user_tree": t.to_json()}),
+            GSpec::Rerooted(t) => json!({"user_tree_over_rerooted_arena": t.to_json()}),
             GSpec::Eliminated(g) => json!({"after_own_infeasible_elimination": g.to_json()}),
             o => json!(format!("{:?}", o)),
         }
